@@ -78,7 +78,7 @@ def occurrences(p, by_net=False):
 def run(chk):
     E = LossEnv(chk.repo)
     chk.files = E.w.files
-    thorough = chk.tier == "thorough"
+    thorough = chk.full
     chk.rule("C06.R1", "every occurrence of a parameter group inside a term's formula is behind stop_gradient iff the "
                        "(term, group) pair is not selected", floor=20)
     chk.rule("C06.R2", "term values (formulas with stop_gradient marks erased) do not depend on the derivative specification", floor=20)
